@@ -166,6 +166,26 @@ def r14_3(ctx, fx):
                     continue
                 ok = ok or any(fn.only_via(node, sw, [t]) for sw, t, f in fn.bool_tests(c.dest[0]))
             ctx.ob("R14.3", "KBucket::entry/Occupied-only-if-nodes[i].key==key", ok, site=fn.site(node), cfg=fx.cfg)
+        # the key lookup runs to completion before any slot is handed out as Vacant / a new slot is pushed / NoSlot is answered:
+        # otherwise a peer stored behind a disconnected entry would be "found" as Vacant and duplicated
+        eqs = [c for c in fn.calls(r"PartialEq(<.*>)?>?::eq$") if guards.rootstrs(fn, c.args[1]) == {"param:_2"} and fn.origin(c.args[0]).endswith(".key")]
+        nxt = [c for c in fn.calls(r"Iterator>?::next$|iter::range::(<impl .*>::)?next$")]
+        look = None
+        for c in nxt:
+            sws = [sw for sw in fn.discr_switches() if sw[1][0] in fn.copies_of(c.dest[0]) and len(sw[1]) == 1]
+            if not sws:
+                continue
+            body = fn.reach([m for m, l in fn.succs(sws[0][0]) if l in fn.variant_edges(sws[0], "Some")], avoid=[c.node])
+            if any(e.node in body for e in eqs):
+                look = (c, sws[0])
+        ctx.anchor("R14.3", "KBucket::entry: key-lookup loop", 1 if look else 0, 1, cfg=fx.cfg)
+        if look:
+            c, sw = look
+            done = fn.variant_edges(sw, "None")
+            outs = [n for n, s2 in vac] + [n for n, s2 in fn.aggregates(r"KBucketEntry$", "NoSlot")] + pushes
+            late = [fn.site(n) for n in outs if not fn.only_via(n, sw[0], done)]
+            ctx.ob("R14.3", "KBucket::entry/lookup-completes-before-a-slot-is-handed-out", not late, site=fn.site(c.node), cfg=fx.cfg,
+                   detail="Vacant / push / NoSlot reachable before every stored key was compared: %s" % late)
         # NoSlot only after the bound check failed and the eviction scan is exhausted
         nos = [n for n, s in fn.aggregates(r"KBucketEntry$", "NoSlot")]
         for n in nos:
